@@ -44,6 +44,10 @@ def split_outputs(out):
     return vals
 
 
+class CoqTimeout(CoqError):
+    pass
+
+
 def run_file(path, timeout=600):
     cmd = ['coqc', '-Q', os.path.join(COQ_DIR, 'theories'), 'PyRTL', path]
     try:
@@ -51,37 +55,56 @@ def run_file(path, timeout=600):
                            cwd=os.path.dirname(path))
     except Exception as e:  # pragma: no cover
         raise CoqError(str(e))
+    if p.returncode in (124, 137, -9):
+        raise CoqTimeout('coqc exceeded %ss on %s' % (timeout, path))
     if p.returncode != 0:
         raise CoqError('coqc failed on %s:\n%s\n%s' % (path, p.stdout[-2000:], p.stderr[-4000:]))
     return p.stdout
 
 
-def eval_exprs(exprs, imports, workdir, tag, shard=60, jobs=8, timeout=900):
-    os.makedirs(workdir, exist_ok=True)
-    files = []
-    for k in range(0, len(exprs), shard):
-        name = '%s_%d' % (tag, k // shard)
-        path = os.path.join(workdir, name + '.v')
-        with open(path, 'w') as f:
-            f.write(imports + '\n')
-            for e in exprs[k:k + shard]:
-                f.write('Eval vm_compute in (%s).\n' % e)
-        files.append((path, min(shard, len(exprs) - k)))
-    results = []
-    with concurrent.futures.ThreadPoolExecutor(max_workers=jobs) as ex:
-        outs = list(ex.map(lambda pf: run_file(pf[0], timeout), files))
-    for (path, n), out in zip(files, outs):
-        vals = split_outputs(out)
-        if len(vals) != n:
-            raise CoqError('expected %d results from %s, got %d' % (n, path, len(vals)))
-        results.extend(parse_value(v) for v in vals)
-        for ext in ('.v', '.vo', '.vok', '.vos', '.glob'):
-            try:
-                os.remove(path[:-2] + ext)
-            except OSError:
-                pass
+def _cleanup(path):
+    for ext in ('.v', '.vo', '.vok', '.vos', '.glob'):
         try:
-            os.remove(os.path.join(os.path.dirname(path), '.' + os.path.basename(path)[:-2] + '.aux'))
+            os.remove(path[:-2] + ext)
         except OSError:
             pass
+    try:
+        os.remove(os.path.join(os.path.dirname(path), '.' + os.path.basename(path)[:-2] + '.aux'))
+    except OSError:
+        pass
+
+
+def eval_shard(exprs, imports, workdir, name, timeout):
+    """one coqc run over the expressions; a run that exceeds the time limit (a loaded machine, one unusually
+    heavy case) is split in two and retried, down to single expressions, instead of failing the whole check"""
+    path = os.path.join(workdir, name + '.v')
+    with open(path, 'w') as f:
+        f.write(imports + '\n')
+        for e in exprs:
+            f.write('Eval vm_compute in (%s).\n' % e)
+    try:
+        out = run_file(path, timeout)
+    except CoqTimeout:
+        _cleanup(path)
+        if len(exprs) <= 1:
+            raise
+        h = len(exprs) // 2
+        return (eval_shard(exprs[:h], imports, workdir, name + 'a', timeout)
+                + eval_shard(exprs[h:], imports, workdir, name + 'b', timeout))
+    vals = split_outputs(out)
+    if len(vals) != len(exprs):
+        raise CoqError('expected %d results from %s, got %d' % (len(exprs), path, len(vals)))
+    res = [parse_value(v) for v in vals]
+    _cleanup(path)
+    return res
+
+
+def eval_exprs(exprs, imports, workdir, tag, shard=60, jobs=8, timeout=900):
+    os.makedirs(workdir, exist_ok=True)
+    chunks = [(exprs[k:k + shard], '%s_%d' % (tag, k // shard)) for k in range(0, len(exprs), shard)]
+    with concurrent.futures.ThreadPoolExecutor(max_workers=jobs) as ex:
+        outs = list(ex.map(lambda cn: eval_shard(cn[0], imports, workdir, cn[1], timeout), chunks))
+    results = []
+    for o in outs:
+        results.extend(o)
     return results
